@@ -258,13 +258,14 @@ def _reach(ctx: Ctx, rec: Rec) -> None:
         names = ctx.adapter.events(rec.prev_state, rec.action, rec.state, rec.ts, ctx.env, ctx.cfg) or []
     except Exception:  # noqa: BLE001
         names = ["events_hook_error"]
+    pre = "ev:" + ctx.adapter.name + ":"
     for n in names:
-        ctx.stats.probe("ev:" + str(n))
+        ctx.stats.probe(pre + str(n))
     if rec.kind == "step" and is_last(rec.ts):
-        ctx.stats.probe("ev:episode_ended")
+        ctx.stats.probe(pre + "episode_ended")
         tl = ctx.adapter.time_limit(ctx.env, ctx.cfg)
         if tl is not None and rec.t >= tl:
-            ctx.stats.probe("ev:ended_at_time_limit")
+            ctx.stats.probe(pre + "ended_at_time_limit")
 
 
 def replay_violates(sysm: Sys, prop: str, monitors: Sequence[Monitor], ops: Sequence[Sequence[Any]],
